@@ -352,6 +352,7 @@ type c11Expect struct {
 	inBlock, inGroup  bool
 	dead, badWindow   bool
 	onlyLedgerOrBlock bool // every duplicate condition is visible to TestTransactionGroup (ledger or earlier group of the block)
+	firstDup          int  // index of the first member with a duplicate condition (-1: none)
 	edge, restarted   bool
 	how               string
 }
@@ -359,9 +360,13 @@ type c11Expect struct {
 func (c *c11Checker) expect(r basics.Round, blk *c11InBlock, g []transactions.SignedTxn) c11Expect {
 	var e c11Expect
 	e.onlyLedgerOrBlock = true
+	e.firstDup = -1
 	seen := map[transactions.Txid]bool{}
 	seenLease := map[ledgercore.Txlease]basics.Round{}
-	for _, st := range g {
+	for gi, st := range g {
+		if (e.dupTx || e.dupLease) && e.firstDup < 0 {
+			e.firstDup = gi - 1
+		}
 		tx := st.Txn
 		id := st.ID()
 		if r < tx.FirstValid || r > tx.LastValid {
@@ -415,6 +420,9 @@ func (c *c11Checker) expect(r basics.Round, blk *c11InBlock, g []transactions.Si
 			}
 		}
 	}
+	if (e.dupTx || e.dupLease) && e.firstDup < 0 {
+		e.firstDup = len(g) - 1
+	}
 	return e
 }
 
@@ -438,6 +446,11 @@ func (c *c11Checker) submit(t *rapid.T, b *engcBlockBuilder, blk *c11InBlock, wh
 		err = b.SubmitSigned([]string{what}, g)
 	}
 	cl := c11Class(err)
+	// The TYPE of the rejection is asserted only when nothing that can fail for another reason runs before the duplicate
+	// check that has to fire: TestTransactionGroup checks every member against the ledger and the block before anything is
+	// applied; TransactionGroup alone applies member i-1 before it checks member i, so there the first offending member must
+	// be the first of the group, or the senders must be comfortably funded (payments of <= 1000 microalgos cannot fail).
+	strict := (!direct && e.onlyLedgerOrBlock) || e.firstDup == 0 || rich
 	desc := func() string {
 		var parts []string
 		for _, st := range g {
@@ -451,11 +464,11 @@ func (c *c11Checker) submit(t *rapid.T, b *engcBlockBuilder, blk *c11InBlock, wh
 	switch {
 	case (e.dupTx || e.dupLease) && err == nil:
 		c.failf(t, "the evaluator accepted a group although %s: %s", c11Why(e), ctx)
-	case (e.dupTx || e.dupLease) && !e.dead && !e.badWindow && (e.onlyLedgerOrBlock || rich) && cl == "other":
+	case (e.dupTx || e.dupLease) && !e.dead && !e.badWindow && strict && cl == "other":
 		c.failf(t, "group rejected with %q instead of TransactionInLedgerError/LeaseInLedgerError although %s: %s", err, c11Why(e), ctx)
-	case e.dupTx && !e.dupLease && !e.dead && !e.badWindow && (e.onlyLedgerOrBlock || rich) && cl != "txid-dup":
+	case e.dupTx && !e.dupLease && !e.dead && !e.badWindow && strict && cl != "txid-dup":
 		c.failf(t, "group rejected with %q; want TransactionInLedgerError (%s): %s", err, c11Why(e), ctx)
-	case e.dupLease && !e.dupTx && !e.dead && !e.badWindow && (e.onlyLedgerOrBlock || rich) && cl != "lease-dup":
+	case e.dupLease && !e.dupTx && !e.dead && !e.badWindow && strict && cl != "lease-dup":
 		c.failf(t, "group rejected with %q; want LeaseInLedgerError (%s): %s", err, c11Why(e), ctx)
 	case !e.dupTx && !e.dupLease && (cl == "txid-dup" || cl == "lease-dup"):
 		c.failf(t, "the duplicate check fired (%v) for a group of never committed transactions with no active lease: %s", err, ctx)
@@ -612,7 +625,13 @@ func (c *c11Checker) block(t *rapid.T) {
 	if rapid.IntRange(0, 3).Draw(t, "background") == 0 {
 		for i, k := 0, rapid.IntRange(1, 2).Draw(t, "nBackground"); i < k; i++ {
 			if tx := b.Gen.build("pay"); tx != nil {
-				c.submit(t, b, blk, "background-pay", c.build(b, tx), rich)
+				mine := false
+				for _, s := range c.senders {
+					mine = mine || tx.Sender == s
+				}
+				if !mine { // the three senders keep their funds
+					c.submit(t, b, blk, "background-pay", c.build(b, tx), rich)
+				}
 			}
 		}
 	}
